@@ -55,6 +55,9 @@ type Term struct {
 func (t *Term) Key() string {
 	switch t.K {
 	case TVal:
+		if k := loadKey(t.V); k != "" {
+			return k
+		}
 		return fmt.Sprintf("v%p", t.V)
 	case TConst:
 		return fmt.Sprintf("%g", t.C)
@@ -77,6 +80,47 @@ func (t *Term) String() string {
 	}
 	op := map[TermKind]string{TAdd: "+", TSub: "-", TMul: "*", TQuo: "/", TMax: " max ", TMin: " min "}[t.K]
 	return "(" + t.A.String() + op + t.B.String() + ")"
+}
+
+// loadKey identifies a load of a struct field by its access path, so that two loads of
+// the same field (go/ssa performs no CSE) are the same term — provided the enclosing
+// function never stores to that field, otherwise the loads may differ and "" is returned.
+func loadKey(v ssa.Value) string {
+	u, ok := v.(*ssa.UnOp)
+	if !ok || u.Op != token.MUL {
+		return ""
+	}
+	fa, ok := u.X.(*ssa.FieldAddr)
+	if !ok {
+		return ""
+	}
+	root, path := AccessPath(v)
+	if len(path) == 0 || root == nil {
+		return ""
+	}
+	fn := u.Parent()
+	field := path[len(path)-1]
+	typ := TypeName(derefType(fa.X.Type()))
+	stored := false
+	for _, f := range WithClosures(outermost(fn)) {
+		Instrs(f, func(ins ssa.Instruction) {
+			if st, ok := ins.(*ssa.Store); ok && FieldAddrOf(st.Addr, typ, field) {
+				stored = true
+			}
+			// atomic writers take the field's address
+			if c, ok := ins.(ssa.CallInstruction); ok {
+				for _, a := range c.Common().Args {
+					if FieldAddrOf(a, typ, field) && !IsCall(ins, "sync/atomic.LoadInt32", "sync/atomic.LoadInt64", "sync/atomic.LoadUint32") {
+						stored = true
+					}
+				}
+			}
+		})
+	}
+	if stored {
+		return ""
+	}
+	return fmt.Sprintf("ld:%p.%s", root, strings.Join(path, "."))
 }
 
 // Val makes a leaf term.
@@ -167,6 +211,10 @@ func (b *Bounder) TermOf(v ssa.Value) *Term { return b.termOf(v, 3) }
 func (b *Bounder) termOf(v ssa.Value, d int) *Term {
 	if c, ok := constFloat(v); ok {
 		return Num(c)
+	}
+	// integer → wider/float conversions are exact: the term of the operand
+	if cv, ok := v.(*ssa.Convert); ok && isIntegerType(cv.X.Type()) && !isIntegerType(cv.Type()) {
+		return b.termOf(cv.X, d)
 	}
 	if d > 0 {
 		if bo, ok := v.(*ssa.BinOp); ok {
@@ -289,6 +337,9 @@ func (b *Bounder) facts(v ssa.Value) BoundFacts {
 			}
 			out.U = append(out.U, f.U...)
 			return out
+		}
+		if f, ok := b.summary(n); ok {
+			return f
 		}
 		if isIntegerType(n.Type()) {
 			return BoundFacts{Int: true}
@@ -483,6 +534,12 @@ func (b *Bounder) minFacts(fo, fn BoundFacts, cap *Term) BoundFacts {
 		out.U = addTerm(out.U, u)
 	}
 	out.U = addTerm(out.U, cap)
+	// min(a, b) ≥ min(la, lb)
+	for _, l := range capTerms(fo.L) {
+		for _, cl := range capTerms(fn.L) {
+			out.L = addTerm(out.L, Bin(TMin, l, cl))
+		}
+	}
 	// a lower bound survives the cap only if it is known to be below it
 	for _, l := range fo.L {
 		keep := leq(l, cap)
@@ -496,4 +553,63 @@ func (b *Bounder) minFacts(fo, fn BoundFacts, cap *Term) BoundFacts {
 		}
 	}
 	return out
+}
+
+
+// summary bounds the result of a call to a loop-free repository function with a single
+// return by bounding the returned value inside the callee and substituting the actual
+// arguments for the callee's parameters (terms mentioning other callee values are dropped).
+func (b *Bounder) summary(c *ssa.Call) (BoundFacts, bool) {
+	callee := c.Call.StaticCallee()
+	if !Analysable(callee) || HasLoop(callee) || b.depth >= 2 {
+		return BoundFacts{}, false
+	}
+	var ret *ssa.Return
+	n := 0
+	Instrs(callee, func(ins ssa.Instruction) {
+		if r, ok := ins.(*ssa.Return); ok && r.Block() != callee.Recover {
+			ret = r
+			n++
+		}
+	})
+	if n != 1 || len(ret.Results) != 1 {
+		return BoundFacts{}, false
+	}
+	inner := &Bounder{memo: map[ssa.Value]*BoundFacts{}, depth: b.depth + 1}
+	f := inner.Facts(ret.Results[0])
+	argOf := map[ssa.Value]ssa.Value{}
+	for i, p := range callee.Params {
+		if i < len(c.Call.Args) {
+			argOf[p] = c.Call.Args[i]
+		}
+	}
+	var subst func(t *Term) *Term
+	subst = func(t *Term) *Term {
+		switch t.K {
+		case TConst:
+			return t
+		case TVal:
+			if a, ok := argOf[t.V]; ok {
+				return b.TermOf(a)
+			}
+			return nil
+		}
+		x, y := subst(t.A), subst(t.B)
+		if x == nil || y == nil {
+			return nil
+		}
+		return Bin(t.K, x, y)
+	}
+	out := BoundFacts{Int: f.Int}
+	for _, l := range f.L {
+		if t := subst(l); t != nil {
+			out.L = addTerm(out.L, t)
+		}
+	}
+	for _, u := range f.U {
+		if t := subst(u); t != nil {
+			out.U = addTerm(out.U, t)
+		}
+	}
+	return out, true
 }
